@@ -13,9 +13,17 @@ use std::io::Cursor;
 
 pub struct ProtoCtx {
     pub rln: Option<RLN>,
+    pub chunk: usize,
 }
 
 fn list_fr(s: &str) -> Option<Vec<Fr>> {
+    // `gen:<n>:<seed>` (hex): the n consecutive values seed+1, …, seed+n — long lists without long lines
+    if let Some(rest) = s.strip_prefix("gen:") {
+        let (n, seed) = rest.split_once(':')?;
+        let (n, seed) = (parse_usize(n)?, parse_usize(seed)? as u64);
+        return Some((1..=n as u64).map(|i| Fr::from(seed + i)).collect());
+    }
+
     if s == "-" {
         return Some(vec![]);
     }
@@ -58,7 +66,15 @@ fn mk_witness(w: &[&str]) -> Option<Result<RLNWitnessInput, ()>> {
 /// canonical rendering of a witness through its decimal JSON export
 fn show_witness(w: &RLNWitnessInput) -> String {
     match rln_witness_to_bigint_json(w) {
-        Ok(j) => {
+        Ok(j) => show_bigint_json(&j),
+        Err(_) => "err".into(),
+    }
+}
+
+/// the decimal JSON export of a witness, rendered canonically
+fn show_bigint_json(j: &serde_json::Value) -> String {
+    match Some(j) {
+        Some(j) => {
             let g = |k: &str| -> String {
                 let v = &j[k];
                 let dec = |x: &serde_json::Value| {
@@ -77,7 +93,7 @@ fn show_witness(w: &RLNWitnessInput) -> String {
                 g("identityPathIndex"), g("x"), g("externalNullifier")
             )
         }
-        Err(_) => "err".into(),
+        None => "err".into(),
     }
 }
 
@@ -95,7 +111,7 @@ fn verdict(r: color_eyre::Result<bool>) -> String {
 
 impl ProtoCtx {
     pub fn new() -> Self {
-        ProtoCtx { rln: None }
+        ProtoCtx { rln: None, chunk: 0 }
     }
     fn rln(&mut self) -> &mut RLN {
         if self.rln.is_none() {
@@ -107,6 +123,33 @@ impl ProtoCtx {
         Some(match (w[0], w.len()) {
             // ---------------------------------------------------------------- plain codecs
             ("ser_fr", 2) => show_bytes(&fr_to_bytes_le(&parse_fr(w[1])?)),
+            // long vectors (beyond any internal chunking threshold) through the vector codecs: `bigvec fr|u8 <n> <seed>` encodes the
+            // generated vector, decodes it again and prints a summary (count, bytes read, first, last, sum)
+            ("bigvec", 4) => {
+                let (n, seed) = (parse_usize(w[2])?, parse_usize(w[3])? as u64);
+                if w[1] == "fr" {
+                    let v: Vec<Fr> = (1..=n as u64).map(|i| Fr::from(seed + i)).collect();
+                    let b = vec_fr_to_bytes_le(&v).ok()?;
+                    match bytes_le_to_vec_fr(&b) {
+                        Ok((d, read)) => {
+                            let sum = d.iter().fold(Fr::from(0u64), |a, x| a + x);
+                            format!("ok len={} read={} first={} last={} sum={}", d.len(), read, d.first().map(fr_hex).unwrap_or("-".into()), d.last().map(fr_hex).unwrap_or("-".into()), fr_hex(&sum))
+                        }
+                        Err(_) => "err".into(),
+                    }
+                } else {
+                    let v: Vec<u8> = (1..=n as u64).map(|i| ((seed + i) & 0xff) as u8).collect();
+                    let b = vec_u8_to_bytes_le(&v).ok()?;
+                    match bytes_le_to_vec_u8(&b) {
+                        Ok((d, read)) => {
+                            let sum: u64 = d.iter().map(|x| *x as u64).sum();
+                            format!("ok len={} read={} first={} last={} sum={}", d.len(), read, d.first().map(|x| format!("0x{:x}", x)).unwrap_or("-".into()), d.last().map(|x| format!("0x{:x}", x)).unwrap_or("-".into()), format!("0x{:x}", sum))
+                        }
+                        Err(_) => "err".into(),
+                    }
+                }
+            }
+            ("is_canonical", 2) => format!("{}", rln::utils::is_canonical_fr_bytes_le(&parse_bytes(w[1])?)),
             ("de_fr", 2) => {
                 let b = parse_bytes(w[1])?;
                 let (v, n) = bytes_le_to_fr(&b);
@@ -203,6 +246,18 @@ impl ProtoCtx {
                 Ok((wi, n)) => format!("ok {} read={}", show_witness(&wi), n),
                 Err(_) => "err".into(),
             },
+            // the RLN-level siblings of the two witness exports (thin wrappers; same answers expected)
+            ("rln_wit_bigint", 2) => { let b = parse_bytes(w[1])?; match self.rln().get_rln_witness_bigint_json(&b) {
+                Ok(j) => format!("ok {} read={}", show_bigint_json(&j), b.len()),
+                Err(_) => "err".into(),
+            } }
+            ("rln_wit_json", 2) => { let b = parse_bytes(w[1])?; match self.rln().get_rln_witness_json(&b) {
+                Ok(j) => match (rln_witness_from_json(j), deserialize_witness(&b)) {
+                    (Ok(w2), Ok((wi, _))) => format!("ok {} same={}", show_witness(&w2), w2 == wi),
+                    _ => "err".into(),
+                },
+                Err(_) => "err".into(),
+            } }
             // JSON codec round trip of a decoded witness: decode(bytes) -> json -> witness -> bytes
             ("json_rt", 2) => match deserialize_witness(&parse_bytes(w[1])?) {
                 Ok((wi, _)) => {
@@ -253,7 +308,16 @@ impl ProtoCtx {
                     "ffi_key_gen" => ffi::key_gen(ctx, &mut ob),
                     _ => ffi::extended_key_gen(ctx, &mut ob),
                 };
-                if ok { format!("ok {}", show_bytes(&crate::hashops::ffi_read(&ob))) } else { "err".into() }
+                let r1 = if ok { format!("ok {}", show_bytes(&crate::hashops::ffi_read(&ob))) } else { "err".to_string() };
+                if w.len() == 2 {
+                    // the seeded calls once more "in place": one Buffer struct as input and output
+                    let mut io = ffi::Buffer { ptr: seed.as_ptr(), len: seed.len() };
+                    let p: *mut ffi::Buffer = &mut io;
+                    let ok2 = if w[0] == "ffi_seeded_key_gen" { ffi::seeded_key_gen(ctx, p as *const ffi::Buffer, p) } else { ffi::seeded_extended_key_gen(ctx, p as *const ffi::Buffer, p) };
+                    let r2 = if ok2 { format!("ok {}", show_bytes(&crate::hashops::ffi_read(&io))) } else { "err".to_string() };
+                    if r1 != r2 { return Some(format!("IN-PLACE-DIFFERS {} vs {}", r2, r1)); }
+                }
+                r1
             }
             // ---------------------------------------------------------------- the RLN object
             ("rln", _) if w.len() >= 2 => return self.rln_op(&w[1..]),
@@ -279,13 +343,28 @@ impl ProtoCtx {
     }
 
     fn rln_op(&mut self, w: &[&str]) -> Option<String> {
+        let chunk = self.chunk;
         let res = |r: color_eyre::Result<()>| if r.is_ok() { "ok".to_string() } else { "err".to_string() };
         let out = |r: color_eyre::Result<()>, c: Cursor<Vec<u8>>| if r.is_ok() { format!("ok {}", show_bytes(&c.into_inner())) } else { "err".to_string() };
         Some(match (w[0], w.len()) {
+            // every reader handed to the API from now on delivers at most n bytes per read() call (0: everything at once)
+            ("chunk", 2) => { self.chunk = parse_usize(w[1])?; "ok".into() }
             ("new", 1) => {
                 self.rln = None;
                 self.rln();
                 "ok".into()
+            }
+            // the same instance built from caller-supplied resources (the key file and graph of the repository, read here as bytes)
+            ("new_params", 1) => {
+                let repo = std::env::var("ZK_REPO").unwrap_or_else(|_| "/repo".to_string());
+                let dir = format!("{}/rln/resources/tree_height_20", repo);
+                let zkey = std::fs::read(format!("{}/rln_final.zkey", dir)).ok()?;
+                let graph = std::fs::read(format!("{}/graph.bin", dir)).ok()?;
+                self.rln = None;
+                match RLN::new_with_params(20, zkey, graph, crate::protoops::ChunkReader::new(chunk, Vec::new())) {
+                    Ok(r) => { self.rln = Some(r); "ok".into() }
+                    Err(_) => "err".into(),
+                }
             }
             // `rln io <r|r1|w> <op> args…`: the same API call made by a caller whose reader fails after delivering its bytes (r: the
             // last reader, r1: the first of two) or whose output cannot take a single byte (w). The call must return an error and
@@ -318,39 +397,39 @@ impl ProtoCtx {
                     ("w", "get_leaf", 2) => self.rln().get_leaf(parse_usize(a[1])?, &mut none[..]),
                     ("w", "get_proof", 2) => self.rln().get_proof(parse_usize(a[1])?, &mut none[..]),
                     ("w", "empty", 1) => self.rln().get_empty_leaves_indices(&mut none[..]),
-                    ("w", "prove_req", 2) => self.rln().generate_rln_proof(Cursor::new(parse_bytes(a[1])?), &mut none[..]),
+                    ("w", "prove_req", 2) => self.rln().generate_rln_proof(crate::protoops::ChunkReader::new(chunk, parse_bytes(a[1])?), &mut none[..]),
                     ("r", "prove_req", 2) => { let mut c = Cursor::new(Vec::new()); self.rln().generate_rln_proof(fr(parse_bytes(a[1])?), &mut c) }
                     ("r", "verify_rln", 2) => self.rln().verify_rln_proof(fr(parse_bytes(a[1])?)).map(|_| ()),
                     ("r", "verify", 2) => self.rln().verify(fr(parse_bytes(a[1])?)).map(|_| ()),
                     ("w", "key_gen", 1) => self.rln().key_gen(&mut none[..]),
-                    ("w", "seeded_key_gen", 2) => self.rln().seeded_key_gen(Cursor::new(parse_bytes(a[1])?), &mut none[..]),
+                    ("w", "seeded_key_gen", 2) => self.rln().seeded_key_gen(crate::protoops::ChunkReader::new(chunk, parse_bytes(a[1])?), &mut none[..]),
                     ("r", "seeded_key_gen", 2) => { let mut c = Cursor::new(Vec::new()); self.rln().seeded_key_gen(fr(parse_bytes(a[1])?), &mut c) }
                     ("r", "recover", 3) => { let mut c = Cursor::new(Vec::new()); self.rln().recover_id_secret(okr(parse_bytes(a[1])?), fr(parse_bytes(a[2])?), &mut c) }
-                    ("w", "recover", 3) => self.rln().recover_id_secret(Cursor::new(parse_bytes(a[1])?), Cursor::new(parse_bytes(a[2])?), &mut none[..]),
+                    ("w", "recover", 3) => self.rln().recover_id_secret(crate::protoops::ChunkReader::new(chunk, parse_bytes(a[1])?), crate::protoops::ChunkReader::new(chunk, parse_bytes(a[2])?), &mut none[..]),
                     _ => return None,
                 };
                 res(r)
             }
-            ("set_leaf", 3) => { let b = fr_to_bytes_le(&parse_fr(w[2])?); res(self.rln().set_leaf(parse_usize(w[1])?, Cursor::new(b))) }
-            ("set_next", 2) => { let b = fr_to_bytes_le(&parse_fr(w[1])?); res(self.rln().set_next_leaf(Cursor::new(b))) }
+            ("set_leaf", 3) => { let b = fr_to_bytes_le(&parse_fr(w[2])?); res(self.rln().set_leaf(parse_usize(w[1])?, crate::protoops::ChunkReader::new(chunk, b))) }
+            ("set_next", 2) => { let b = fr_to_bytes_le(&parse_fr(w[1])?); res(self.rln().set_next_leaf(crate::protoops::ChunkReader::new(chunk, b))) }
             ("delete", 2) => res(self.rln().delete_leaf(parse_usize(w[1])?)),
             ("root", 1) => { let mut c = Cursor::new(Vec::new()); let r = self.rln().get_root(&mut c); if r.is_ok() { fr_hex(&bytes_le_to_fr(&c.into_inner()).0) } else { "err".into() } }
             ("get_leaf", 2) => { let mut c = Cursor::new(Vec::new()); let r = self.rln().get_leaf(parse_usize(w[1])?, &mut c); if r.is_ok() { fr_hex(&bytes_le_to_fr(&c.into_inner()).0) } else { "err".into() } }
             ("get_proof", 2) => { let mut c = Cursor::new(Vec::new()); let r = self.rln().get_proof(parse_usize(w[1])?, &mut c); out(r, c) }
             ("leaves_set", 1) => format!("{}", self.rln().leaves_set()),
-            ("set_leaves_from", 3) => { let b = vec_fr_to_bytes_le(&list_fr(w[2])?).ok()?; res(self.rln().set_leaves_from(parse_usize(w[1])?, Cursor::new(b))) }
-            ("init_leaves", 2) => { let b = vec_fr_to_bytes_le(&list_fr(w[1])?).ok()?; res(self.rln().init_tree_with_leaves(Cursor::new(b))) }
+            ("set_leaves_from", 3) => { let b = vec_fr_to_bytes_le(&list_fr(w[2])?).ok()?; res(self.rln().set_leaves_from(parse_usize(w[1])?, crate::protoops::ChunkReader::new(chunk, b))) }
+            ("init_leaves", 2) => { let b = vec_fr_to_bytes_le(&list_fr(w[1])?).ok()?; res(self.rln().init_tree_with_leaves(crate::protoops::ChunkReader::new(chunk, b))) }
             ("atomic", 4) => {
                 let b = vec_fr_to_bytes_le(&list_fr(w[2])?).ok()?;
                 let idx: Vec<u8> = if w[3] == "-" { vec![] } else { w[3].split(',').map(|x| parse_usize(x).map(|v| v as u8)).collect::<Option<_>>()? };
                 let ib = vec_u8_to_bytes_le(&idx).ok()?;
-                res(self.rln().atomic_operation(parse_usize(w[1])?, Cursor::new(b), Cursor::new(ib)))
+                res(self.rln().atomic_operation(parse_usize(w[1])?, crate::protoops::ChunkReader::new(chunk, b), crate::protoops::ChunkReader::new(chunk, ib)))
             }
             ("empty", 1) => { let mut c = Cursor::new(Vec::new()); let r = self.rln().get_empty_leaves_indices(&mut c); out(r, c) }
             // proving entry points: raw request bytes in, message bytes out
-            ("prove_req", 2) => { let mut c = Cursor::new(Vec::new()); let r = self.rln().generate_rln_proof(Cursor::new(parse_bytes(w[1])?), &mut c); out(r, c) }
-            ("prove_wit", 2) => { let mut c = Cursor::new(Vec::new()); let r = self.rln().generate_rln_proof_with_witness(Cursor::new(parse_bytes(w[1])?), &mut c); out(r, c) }
-            ("prove_raw", 2) => { let mut c = Cursor::new(Vec::new()); let r = self.rln().prove(Cursor::new(parse_bytes(w[1])?), &mut c); out(r, c) }
+            ("prove_req", 2) => { let mut c = Cursor::new(Vec::new()); let r = self.rln().generate_rln_proof(crate::protoops::ChunkReader::new(chunk, parse_bytes(w[1])?), &mut c); out(r, c) }
+            ("prove_wit", 2) => { let mut c = Cursor::new(Vec::new()); let r = self.rln().generate_rln_proof_with_witness(crate::protoops::ChunkReader::new(chunk, parse_bytes(w[1])?), &mut c); out(r, c) }
+            ("prove_raw", 2) => { let mut c = Cursor::new(Vec::new()); let r = self.rln().prove(crate::protoops::ChunkReader::new(chunk, parse_bytes(w[1])?), &mut c); out(r, c) }
             // fourth proving entry point: an externally computed witness vector (as rln-wasm does) + generate_proof_with_witness
             ("prove_ext", 2) => {
                 use ark_serialize::CanonicalSerialize;
@@ -380,30 +459,43 @@ impl ProtoCtx {
             ("prove_verify", 3) => {
                 let (req, sig) = (parse_bytes(w[1])?, parse_bytes(w[2])?);
                 let mut c = Cursor::new(Vec::new());
-                match self.rln().generate_rln_proof(Cursor::new(req), &mut c) {
+                match self.rln().generate_rln_proof(crate::protoops::ChunkReader::new(chunk, req), &mut c) {
                     Err(_) => "err".into(),
                     Ok(()) => {
                         let msg = c.into_inner();
                         let mut full = msg.clone();
                         full.extend_from_slice(&normalize_usize(sig.len()));
                         full.extend_from_slice(&sig);
-                        let v = verdict(self.rln().verify_rln_proof(Cursor::new(full)));
+                        let v = verdict(self.rln().verify_rln_proof(crate::protoops::ChunkReader::new(chunk, full)));
                         format!("ok {} {}", show_bytes(&msg[128..]), v)
                     }
                 }
             }
-            ("witness_req", 2) => match self.rln().get_serialized_rln_witness(Cursor::new(parse_bytes(w[1])?)) { Ok(b) => format!("ok {}", show_bytes(&b)), Err(_) => "err".into() },
+            ("witness_req", 2) => match self.rln().get_serialized_rln_witness(crate::protoops::ChunkReader::new(chunk, parse_bytes(w[1])?)) { Ok(b) => format!("ok {}", show_bytes(&b)), Err(_) => "err".into() },
             // verification entry points (trailing oracle fields are for the model side only)
-            ("verify", _) if w.len() >= 2 => verdict(self.rln().verify(Cursor::new(parse_bytes(w[1])?))),
-            ("verify_rln", _) if w.len() >= 2 => verdict(self.rln().verify_rln_proof(Cursor::new(parse_bytes(w[1])?))),
-            ("verify_roots", _) if w.len() >= 3 => verdict(self.rln().verify_with_roots(Cursor::new(parse_bytes(w[1])?), Cursor::new(parse_bytes(w[2])?))),
-            ("seeded_key_gen", 2) => { let mut c = Cursor::new(Vec::new()); let r = self.rln().seeded_key_gen(Cursor::new(parse_bytes(w[1])?), &mut c); out(r, c) }
-            ("seeded_ext_key_gen", 2) => { let mut c = Cursor::new(Vec::new()); let r = self.rln().seeded_extended_key_gen(Cursor::new(parse_bytes(w[1])?), &mut c); out(r, c) }
+            ("verify", _) if w.len() >= 2 => verdict(self.rln().verify(crate::protoops::ChunkReader::new(chunk, parse_bytes(w[1])?))),
+            ("verify_rln", _) if w.len() >= 2 => verdict(self.rln().verify_rln_proof(crate::protoops::ChunkReader::new(chunk, parse_bytes(w[1])?))),
+            ("verify_roots", _) if w.len() >= 3 => verdict(self.rln().verify_with_roots(crate::protoops::ChunkReader::new(chunk, parse_bytes(w[1])?), crate::protoops::ChunkReader::new(chunk, parse_bytes(w[2])?))),
+            ("seeded_key_gen", 2) => { let mut c = Cursor::new(Vec::new()); let r = self.rln().seeded_key_gen(crate::protoops::ChunkReader::new(chunk, parse_bytes(w[1])?), &mut c); out(r, c) }
+            ("seeded_ext_key_gen", 2) => { let mut c = Cursor::new(Vec::new()); let r = self.rln().seeded_extended_key_gen(crate::protoops::ChunkReader::new(chunk, parse_bytes(w[1])?), &mut c); out(r, c) }
             ("key_gen", 1) => { let mut c = Cursor::new(Vec::new()); let r = self.rln().key_gen(&mut c); out(r, c) }
             ("ext_key_gen", 1) => { let mut c = Cursor::new(Vec::new()); let r = self.rln().extended_key_gen(&mut c); out(r, c) }
-            ("recover", 3) => { let mut c = Cursor::new(Vec::new()); let r = self.rln().recover_id_secret(Cursor::new(parse_bytes(w[1])?), Cursor::new(parse_bytes(w[2])?), &mut c); out(r, c) }
+            ("recover", 3) => { let mut c = Cursor::new(Vec::new()); let r = self.rln().recover_id_secret(crate::protoops::ChunkReader::new(chunk, parse_bytes(w[1])?), crate::protoops::ChunkReader::new(chunk, parse_bytes(w[2])?), &mut c); out(r, c) }
             _ => return None,
         })
+    }
+}
+
+/// a reader over a byte vector that delivers at most `chunk` bytes per `read()` call (0 = no limit): `Read::read` may
+/// legally return fewer bytes than asked for, so code that must see all of its input has to loop (`read_to_end`, `read_exact`)
+pub struct ChunkReader(Cursor<Vec<u8>>, usize);
+impl ChunkReader {
+    pub fn new(chunk: usize, b: Vec<u8>) -> Self { ChunkReader(Cursor::new(b), chunk) }
+}
+impl std::io::Read for ChunkReader {
+    fn read(&mut self, buf: &mut [u8]) -> std::io::Result<usize> {
+        let n = if self.1 == 0 { buf.len() } else { buf.len().min(self.1) };
+        self.0.read(&mut buf[..n])
     }
 }
 
